@@ -2,7 +2,7 @@
    (the limiter on its own).  Model: model/Limiter.v - session.py:57-89 on CPython 3.12's
    asyncio.Semaphore.  Every theorem is over ALL label sequences (labels that are not enabled
    are no-ops); the only hypothesis is the property's own: targets are at least 1. *)
-From AV Require Import Base Limiter LimiterProofs LimiterOrder Gen_session Throttle ThrottleProofs.
+From AV Require Import Base Limiter LimiterProofs LimiterOrder LimiterProgress Gen_session Throttle ThrottleProofs.
 Local Open Scope Z_scope.
 
 Definition targets_ge_1 (ls : list label) : Prop := Forall ok_label ls.
@@ -62,6 +62,27 @@ Theorem C13_no_overtaking : forall t ls, 1 <= t -> targets_ge_1 ls -> NoDup (sta
               (In y (holders st) \/ In y (admitted st) \/ find_waiter y (waiters st) = Some Woken) ->
               exists a b, starts ls = a ++ b /\ In y a /\ In x b.
 Proof. exact no_overtaking. Qed.
+
+(* "... and are all eventually served": for a queued worker x let mu = excess + the number of workers queued in
+   front of x.  No step other than set_target makes mu larger while x stays queued, and every exit of a holder
+   makes mu smaller by exactly one while mu > 0 and hands x its permit when mu = 0: x is served after at most
+   excess + position + 1 exits, whatever else happens in between *)
+Theorem C13_not_delayed : forall st l x, InvN st -> ok_label l -> (forall n, l <> SetTarget n) ->
+  In x (pend (waiters st)) -> In x (pend (waiters (step st l))) ->
+  (idx x (pend (waiters (step st l))) <= idx x (pend (waiters st)))%nat /\ excess (step st l) <= excess st.
+Proof. exact not_delayed. Qed.
+
+Theorem C13_exit_progress : forall st h x, InvN st -> memN h (holders st) = true -> In x (pend (waiters st)) ->
+  let st' := step st (Exit h) in
+  (0 < excess st -> excess st' = excess st - 1 /\ pend (waiters st') = pend (waiters st)) /\
+  (excess st = 0 ->
+     (idx x (pend (waiters st)) = O -> In x (wok (waiters st'))) /\
+     (forall k, idx x (pend (waiters st)) = S k -> In x (pend (waiters st')) /\ idx x (pend (waiters st')) = k)).
+Proof. exact exit_progress. Qed.
+
+(* (the hypothesis InvN holds in every reachable state: C13_conservation is its first half) *)
+Theorem C13_reachable_inv : forall t ls, 1 <= t -> targets_ge_1 ls -> InvN (run t ls).
+Proof. exact run_inv. Qed.
 
 Theorem C13_exit_serves_head : forall st w ws, memN w (holders st) = true -> semv st <= target st ->
   wake_first (waiters st) = Some ws ->
@@ -158,12 +179,24 @@ Example C13_no_overtaking_ex :
   holders st = [2%N] /\ NoDup (starts ls) /\ targets_ge_1 ls.
 Proof. vm_compute. repeat split; repeat constructor; cbn; intuition discriminate. Qed.
 
+(* non-vacuity of the progress theorems: limit lowered from 3 to 1 with three holders and two queued workers:
+   two exits retire the excess, the third hands worker 4 its permit, worker 5 moves up *)
+Example C13_progress_ex :
+  let st := run 3 [Start 1; Start 2; Start 3; Start 4; Start 5; SetTarget 1]%N in
+  excess st = 2 /\ pend (waiters st) = [4; 5]%N /\
+  let st3 := fold_left step [Exit 1; Exit 2; Exit 3]%N st in
+  excess st3 = 0 /\ wok (waiters st3) = [4%N] /\ pend (waiters st3) = [5%N].
+Proof. vm_compute. repeat split. Qed.
+
 Print Assumptions C13_conservation.
 Print Assumptions C13_bound.
 Print Assumptions C13_lowering.
 Print Assumptions C13_raising.
 Print Assumptions C13_fifo.
 Print Assumptions C13_no_overtaking.
+Print Assumptions C13_not_delayed.
+Print Assumptions C13_exit_progress.
+Print Assumptions C13_reachable_inv.
 Print Assumptions C13_exit_serves_head.
 Print Assumptions C13_zero_refuses.
 Print Assumptions C13_session_shape.
